@@ -30,24 +30,30 @@ def class_scope_rule(ctx, res, rule: str) -> None:
     scopes = [SCOPE] + idx.subclasses(SCOPE)
     res.floor(rule, "scope classes", len(scopes), 5)
     lookup = idx.need_func(f"{SCOPE}.lookup")
-    plook = idx.need_func(f"{SCOPE}._propagated_lookup")
 
     def called(fn) -> List[ast.Call]:
         return [c for c in calls_in(fn.node) if isinstance(c.func, ast.Attribute)]
 
+    # the private method the chain continues with on the parent: identified by its ROLE (it is what `lookup` calls on
+    # `self.parent` and it reads get_propagated_names), not by its name
+    cands = [c.func.attr for c in called(lookup) if isinstance(c.func.value, ast.Attribute) and c.func.value.attr == "parent"]
+    PL = next((m for m in cands if m != "lookup" and idx.find_method(SCOPE, m) is not None
+               and any(c.func.attr == "get_propagated_names" for c in called(idx.find_method(SCOPE, m)))), "_propagated_lookup")
+    plook = idx.need_func(f"{SCOPE}.{PL}")
+
     # (a) lookup: own names, then parent's *propagated* lookup
     names = {c.func.attr for c in called(lookup)}
     deleg = [c for c in called(lookup) if isinstance(c.func.value, ast.Attribute) and c.func.value.attr == "parent"]
-    ok = names <= {"get_names", "_propagated_lookup"} and bool(deleg) and all(c.func.attr == "_propagated_lookup" for c in deleg)
+    ok = names <= {"get_names", PL} and bool(deleg) and all(c.func.attr == PL for c in deleg)
     res.add(rule, "Scope.lookup", ok, lookup.where,
-            "lookup consults its own names and delegates to parent._propagated_lookup only" if ok else
+            "lookup consults its own names and delegates to the parent's propagated lookup only" if ok else
             f"Scope.lookup delegates to the parent through {sorted(c.func.attr for c in deleg) or sorted(names)}: an enclosing class scope's "
             "own names become visible from nested functions (a method body would resolve a free name to a class attribute)")
     # (b) propagated lookup reads only propagated names
     names = {c.func.attr for c in called(plook)}
     deleg = [c for c in called(plook) if isinstance(c.func.value, ast.Attribute) and c.func.value.attr == "parent"]
-    ok = names <= {"get_propagated_names", "_propagated_lookup"} and "get_propagated_names" in names \
-        and all(c.func.attr == "_propagated_lookup" for c in deleg)
+    ok = names <= {"get_propagated_names", PL} and "get_propagated_names" in names \
+        and all(c.func.attr == PL for c in deleg)
     res.add(rule, "Scope._propagated_lookup", ok, plook.where,
             "_propagated_lookup reads no name table other than get_propagated_names()" if ok else
             f"Scope._propagated_lookup reads {sorted(names)}: enclosing-scope lookup no longer goes through the propagated names only")
@@ -61,7 +67,7 @@ def class_scope_rule(ctx, res, rule: str) -> None:
             for r in walk_local(gk.node):
                 if isinstance(r, ast.Return) and const_str(r.value):
                     kind = const_str(r.value)
-        for mname in ("lookup", "_propagated_lookup"):
+        for mname in ("lookup", PL):
             if mname in c.methods:
                 res.undecided(rule, f"{c.name}.{mname}", c.methods[mname].where, "scope subclass overrides the lookup chain")
         gp = c.methods.get("get_propagated_names")
